@@ -69,6 +69,12 @@ def rule_x1(F):
             n += 1
             reads = local_reads(fb, d[0])
             gated = [g for g in gs if any(c[0] == bi for c in g["chain"])]
+            if not gated:
+                # `if step().is_err() { return Err(..) }`: a branch on a value computed from the result
+                for sb_, sblk in enumerate(fb.blocks):
+                    st_ = sblk["term"]
+                    if st_["k"] == "switch" and mir.is_place_op(st_["o"]) and bi in mir.back_calls(fb, defs, st_["o"][1][0]):
+                        gated = [sb_]
             consumed = sorted({x[0].split("::")[-1] for x in reads})
             r.inst("%s" % hir.last(name) + " #%d" % n, {"call": name, "in": fb.path, "line": t["line"], "consumed_by": consumed, "checked": bool(gated)})
             loud = any(x in ("unwrap", "expect") for x in consumed)
